@@ -11,7 +11,9 @@
 
     What is proved here, about the Gallina transcription [generate] of cmd/gql-client-gen/main.go
     (repaired tree) and the model [decode_op] of the encoding/json behaviour the output relies on:
-    - [env S d] is the envelope above as a boolean predicate (ClientGenSpec.v);
+    - [env S d] is the envelope above as a boolean predicate (ClientGenSpec.v); a response key may
+      be selected several times in one selection set (field merging): "distinct ignoring letter
+      case" constrains different keys only;
     - the two known findings are explicit exclusions: [excl_member_clash] (a response key and a
       fragment of one selection set derive the same Go field name) and [excl_decl_clash] (two
       generated declarations get the same identifier, or a schema / fragment name is used where
@@ -78,6 +80,13 @@ Theorem C20_refuted_before_fix_union_condition :
     (fun p => negb (leaves_agree p ex_schema (hd opU (d_ops docU)) "E" respU)) = true.
 Proof. exact refuted_before_fix_union. Qed.
 
+Theorem C20_refuted_before_fix_repeated_key :
+  in_envelope ex_schema docM = true /\
+  conforms ex_schema (hd opM (d_ops docM)) respM = true /\
+  generated_and (generate quirk_merge ex_schema (doc_valid ex_schema docM) docM)
+    (fun p => negb (leaves_agree p ex_schema (hd opM (d_ops docM)) "M" respM)) = true.
+Proof. exact refuted_before_fix_field_merge. Qed.
+
 (** the known findings: without the exclusions the statement about [wf_program] is false of the
     current code *)
 Theorem C20_refuted_member_name_clash :
@@ -97,5 +106,6 @@ Print Assumptions C20_refuted_before_fix_27.
 Print Assumptions C20_refuted_before_fix_28.
 Print Assumptions C20_refuted_before_fix_29.
 Print Assumptions C20_refuted_before_fix_union_condition.
+Print Assumptions C20_refuted_before_fix_repeated_key.
 Print Assumptions C20_refuted_member_name_clash.
 Print Assumptions C20_refuted_decl_name_clash.
